@@ -64,7 +64,7 @@ def run_one(mod, ctx, case, core):
             # inconclusive unless it found a violation.
             ctx.note("harness_errors")
             if len(ctx.inconclusive) < 5:
-                ctx.inconclusive.append("harness error in case: " + traceback.format_exc()[-900:])
+                ctx.inconclusive.append("harness error in case " + json.dumps(core.jsonable(case))[:600] + ": " + traceback.format_exc()[-700:])
             if ctx.notes["harness_errors"] > 200:
                 raise
             return
